@@ -3,12 +3,20 @@ import common
 from props import system_common
 
 
+def worker_half(out, corr, rnd):
+    """the worker's half of 'exactly once': every lock-section interleaving of the receiver thread (run / steal /
+    shutdown commands) with the main thread — what is assigned and not withdrawn is run, once"""
+    from props import worker_common
+    n = int((500 if out.tier == "quick" else 15000) * out.boost)
+    worker_common.run_worker_corr(out, corr, rnd, n, "worker(TestQueue+WorkerInteractor, lock-section interleavings)")
+
+
 def run(out: common.Outcome):
     system_common.standard_run(
         out, "C01", [("nocrash", 1.0)], ["exactly_once", "nextitem", "report_fifo", "stuck", "internal_error", "command_stream"],
         nontrivial=lambda r: len(r["cfg"]["coll"]) >= 2 and r["cfg"]["numnodes"] >= 1,
         rule="random configurations (5 load-balancing modes, 1-3 workers, 0-13 tests with file/class/group structure, --maxschedchunk, durations) x online-generated schedules of deliver/receiver/main/controller steps, no crashes; non-trivial = at least two tests",
-        modes=["load", "worksteal", "loadscope", "loadfile", "loadgroup"])
+        modes=["load", "worksteal", "loadscope", "loadfile", "loadgroup"], extra_corr=worker_half)
 
 
 replay = system_common.replay
